@@ -34,13 +34,14 @@ Record params := {
   p_zover : Z -> Z -> bool;                (* zstd loop `total > max_output_size` : cap total *)
   p_greq : Z -> Z -> Z;                    (* gzip loop max_length : cap total *)
   p_gover : Z -> Z -> bool;                (* gzip loop `total > max_output_size` : cap total *)
-  p_gover_tail : Z -> Z -> bool            (* gzip flush tail `total > max_output_size` : cap total *)
+  p_gover_tail : Z -> Z -> bool;           (* gzip flush tail `total > max_output_size` : cap total *)
+  p_gz_eof_check : bool                    (* `if not do.eof: raise DecompressionError` present after the flush (both branches) *)
 }.
 
 Definition DECOMPRESS_CHUNK_BYTES : Z := 65536.
 Definition ZSTD_CONTENTSIZE_UNKNOWN : Z := 18446744073709551615.
 
-Definition std_params : params := {|
+Definition std_params (eof_check : bool) : params := {|
   p_zstd_level := 3;
   p_gzip_level := 6;
   p_gzip_wbits := 31;
@@ -50,7 +51,8 @@ Definition std_params : params := {|
   p_zover := fun cap total => total >? cap;
   p_greq := fun cap total => Z.min DECOMPRESS_CHUNK_BYTES (cap - total + 1);
   p_gover := fun cap total => total >? cap;
-  p_gover_tail := fun cap total => total >? cap
+  p_gover_tail := fun cap total => total >? cap;
+  p_gz_eof_check := eof_check
 |}.
 
 (* ---------- the codec libraries, as seen from _codec.py ---------- *)
@@ -69,6 +71,8 @@ Record env := {
   gz_comp : Z -> Z -> bytes -> bytes;
   (* all the bytes a zlib.decompressobj(wbits) delivers for input f *)
   gz_stream : Z -> bytes -> bytes;
+  (* do.eof once the whole input has been fed: the end-of-stream marker was seen *)
+  gz_eof : bytes -> bool;
   (* i-th do.decompress(inbuf, n) with [rest] still undelivered:
      (length returned, unconsumed_tail non-empty afterwards) *)
   gz_dec : bytes -> nat -> Z -> bytes -> Z * bool
@@ -122,24 +126,25 @@ Definition decompress_zstd (P : params) (E : env) (f : bytes) (cap : option Z) :
   end.
 
 (* ---------- the bounded loop of _decompress_body_gzip ---------- *)
-Definition gz_finish (P : params) (cap : Z) (total : Z) (acc : list bytes) (rest : bytes) (reqs : list Z)
+Definition gz_finish (P : params) (eof : bool) (cap : Z) (total : Z) (acc : list bytes) (rest : bytes) (reqs : list Z)
   : result * list Z :=
   (* tail = do.flush() : whatever the object still holds *)
+  let eof_fail := p_gz_eof_check P && negb eof in
   match rest with
-  | [] => (Ok (concat (rev acc)), rev reqs)
+  | [] => (if eof_fail then CodecErr else Ok (concat (rev acc)), rev reqs)
   | _ :: _ =>
       let total' := total + len rest in
       if p_gover_tail P cap total' then (LimitErr, rev reqs)
-      else (Ok (concat (rev (rest :: acc))), rev reqs)
+      else (if eof_fail then CodecErr else Ok (concat (rev (rest :: acc))), rev reqs)
   end.
 
-Fixpoint gz_loop (P : params) (dec : nat -> Z -> bytes -> Z * bool) (cap : Z)
+Fixpoint gz_loop (P : params) (dec : nat -> Z -> bytes -> Z * bool) (eof : bool) (cap : Z)
          (fuel : nat) (i : nat) (total : Z) (acc : list bytes) (rest : bytes)
          (rem_ne tail_ne : bool) (reqs : list Z) : result * list Z :=
   match fuel with
   | O => (Diverge, rev reqs)
   | S fuel' =>
-      if negb (rem_ne || tail_ne) then gz_finish P cap total acc rest reqs    (* while remaining or do.unconsumed_tail *)
+      if negb (rem_ne || tail_ne) then gz_finish P eof cap total acc rest reqs    (* while remaining or do.unconsumed_tail *)
       else
         let n := p_greq P cap total in
         let '(k, tail') := dec i n rest in
@@ -147,21 +152,22 @@ Fixpoint gz_loop (P : params) (dec : nat -> Z -> bytes -> Z * bool) (cap : Z)
         let chunk := firstn m rest in
         match chunk with
         | [] =>
-            if negb tail' then gz_finish P cap total acc (skipn m rest) (n :: reqs)   (* not chunk and not tail: break *)
-            else gz_loop P dec cap fuel' (S i) total acc (skipn m rest) false tail' (n :: reqs)
+            if negb tail' then gz_finish P eof cap total acc (skipn m rest) (n :: reqs)   (* not chunk and not tail: break *)
+            else gz_loop P dec eof cap fuel' (S i) total acc (skipn m rest) false tail' (n :: reqs)
         | _ :: _ =>
             let total' := total + len chunk in
             if p_gover P cap total' then (LimitErr, rev (n :: reqs))
-            else gz_loop P dec cap fuel' (S i) total' (chunk :: acc) (skipn m rest) false tail' (n :: reqs)
+            else gz_loop P dec eof cap fuel' (S i) total' (chunk :: acc) (skipn m rest) false tail' (n :: reqs)
         end
   end.
 
 Definition decompress_gzip (P : params) (E : env) (f : bytes) (cap : option Z) : result * list Z :=
   let d := gz_stream E (p_gzip_wbits P) f in
   match cap with
-  | None => (Ok d, [])                                    (* do.decompress(data) + do.flush() *)
+  | None =>                                               (* do.decompress(data) + do.flush() *)
+      (if p_gz_eof_check P && negb (gz_eof E f) then CodecErr else Ok d, [])
   | Some c =>
-      gz_loop P (gz_dec E f) c (S (S (length d))) O 0 [] d
+      gz_loop P (gz_dec E f) (gz_eof E f) c (S (S (length d))) O 0 [] d
               (match f with [] => false | _ => true end) false []
   end.
 
@@ -189,13 +195,16 @@ Definition decompress (P : params) (E : env) (e : encoding) (data : bytes) (cap 
    returned and which sizes it asked for. *)
 
 (* compact payload descriptions (expanded identically by props/C18.py) *)
-Inductive seg := Lit (b : bytes) | Rep (b : bytes) (k : N) | Lcg (seed : N) (k : N).
+Inductive seg := Lit (b : bytes) | Rep (b : bytes) (k : N) | Xs (seed : N) (k : N).
 
-Fixpoint lcg_bytes (fuel : nat) (x : N) : bytes :=
+(* xorshift32 byte stream, newest byte first in [acc] *)
+Fixpoint xs_bytes (fuel : nat) (x : N) (acc : bytes) : bytes :=
   match fuel with
-  | O => []
-  | S f => let x' := ((x * 1103515245 + 12345) mod 2147483648)%N in
-           ((x' / 65536) mod 256)%N :: lcg_bytes f x'
+  | O => rev' acc
+  | S f => let a := N.land (N.lxor x (N.shiftl x 13)) 4294967295 in
+           let b := N.lxor a (N.shiftr a 17) in
+           let c := N.land (N.lxor b (N.shiftl b 5)) 4294967295 in
+           xs_bytes f c (N.land (N.shiftr c 8) 255 :: acc)
   end.
 
 Fixpoint rep_bytes (fuel : nat) (b : bytes) : bytes :=
@@ -205,7 +214,7 @@ Definition expand_seg (s : seg) : bytes :=
   match s with
   | Lit b => b
   | Rep b k => rep_bytes (N.to_nat k) b
-  | Lcg seed k => lcg_bytes (N.to_nat k) seed
+  | Xs seed k => xs_bytes (N.to_nat k) seed []
   end.
 
 Definition expand (l : list seg) : bytes := concat (map expand_seg l).
@@ -213,51 +222,74 @@ Definition expand (l : list seg) : bytes := concat (map expand_seg l).
 Definition enc_of (c : N) : encoding :=
   match c with 0%N => Identity | 1%N => Zstd | _ => Gzip end.
 
-(* oneshot: None = the library raised, Some p = returned expand p *)
-Definition oneshot_of (o : option (list seg)) : result :=
-  match o with None => CodecErr | Some p => Ok (expand p) end.
+(* one-shot answer of the library: None = it raised, Some None = returned the payload,
+   Some (Some b) = returned other bytes b *)
+Definition oneshot_of (d : bytes) (o : option (option bytes)) : result :=
+  match o with None => CodecErr | Some None => Ok d | Some (Some b) => Ok b end.
 
 Definition nth_read (l : list Z) (i : nat) : Z := nth i l 0.
 Definition nth_dec (l : list (Z * bool)) (i : nat) : Z * bool := nth i l (0, false).
 
-(* input: ((((code, cap), payload), (declared_raw, oneshot, reads)), (data_nonempty, decs))
-   payload = what the library's streaming decoder yields for the frame (for identity: the data) *)
-Definition case_in : Type :=
-  N * option Z * list seg * (Z * option (list seg) * list Z) * (bool * list (Z * bool)).
+Fixpoint bytes_eqb' (a b : bytes) : bool :=
+  match a, b with
+  | [], [] => true
+  | x :: a', y :: b' => if N.eqb x y then bytes_eqb' a' b' else false
+  | _, _ => false
+  end.
 
-Definition run_case (c : case_in) : result * list Z :=
-  let '(code, cap, payload, (decl, one, reads), (data_ne, decs)) := c in
-  let d := expand payload in
-  let frame : bytes := if data_ne then [0%N] else [] in
-  let E := {|
+(* what the call did, relative to the payload of the case *)
+Inductive verdict := VSame | VOther (b : bytes) | VLimit | VCodecErr | VDiverge.
+
+Definition verdict_of (d : bytes) (r : result) : verdict :=
+  match r with
+  | Ok b => if bytes_eqb' b d then VSame else VOther b
+  | LimitErr => VLimit
+  | CodecErr => VCodecErr
+  | Diverge => VDiverge
+  end.
+
+(* one call: (((code, cap), (declared_raw, oneshot, reads)), (data_nonempty, eof, decs)) *)
+Definition sub_in : Type :=
+  N * option Z * (Z * option (option bytes) * list Z) * (bool * bool * list (Z * bool)).
+
+Definition env_of (d : bytes) (frame : bytes) (decl : Z) (one : option (option bytes))
+           (reads : list Z) (eof : bool) (decs : list (Z * bool)) : env := {|
     zstd_comp := fun _ _ => frame;
     zstd_declared := fun _ => decl;
-    zstd_oneshot := fun _ => oneshot_of one;
+    zstd_oneshot := fun _ => oneshot_of d one;
     zstd_stream := fun _ => d;
     zstd_read := fun _ i _ _ => nth_read reads i;
     gz_comp := fun _ _ _ => frame;
     gz_stream := fun _ _ => d;
+    gz_eof := fun _ => eof;
     gz_dec := fun _ i _ _ => nth_dec decs i
-  |} in
-  match enc_of code with
-  | Identity => decompress_tr std_params E Identity d cap
-  | e => decompress_tr std_params E e frame cap
-  end.
+  |}.
 
-Definition bytes_eqb' (a b : bytes) : bool :=
-  (fix go (a b : bytes) : bool :=
-     match a, b with
-     | [], [] => true
-     | x :: a', y :: b' => N.eqb x y && go a' b'
-     | _, _ => false
-     end) a b.
+(* d = what the library's streaming decoder yields for the frame (for identity: the data) *)
+Definition run_sub (eofc : bool) (d : bytes) (c : sub_in) : verdict * list Z :=
+  let '(code, cap, (decl, one, reads), (data_ne, eof, decs)) := c in
+  let frame : bytes := if data_ne then [0%N] else [] in
+  let E := env_of d frame decl one reads eof decs in
+  let r := match enc_of code with
+           | Identity => decompress_tr (std_params eofc) E Identity d cap
+           | e => decompress_tr (std_params eofc) E e frame cap
+           end in
+  (verdict_of d (fst r), snd r).
 
-Definition result_eqb (a b : result) : bool :=
+(* a group of calls on frames of the same payload (expanded once) *)
+Definition case_in : Type := list seg * list sub_in.
+
+Definition run_case (eofc : bool) (c : case_in) : list (verdict * list Z) :=
+  let d := expand (fst c) in
+  map (run_sub eofc d) (snd c).
+
+Definition verdict_eqb (a b : verdict) : bool :=
   match a, b with
-  | Ok x, Ok y => bytes_eqb' x y
-  | LimitErr, LimitErr => true
-  | CodecErr, CodecErr => true
-  | Diverge, Diverge => true
+  | VSame, VSame => true
+  | VOther x, VOther y => bytes_eqb' x y
+  | VLimit, VLimit => true
+  | VCodecErr, VCodecErr => true
+  | VDiverge, VDiverge => true
   | _, _ => false
   end.
 
@@ -268,5 +300,12 @@ Fixpoint zlist_eqb (a b : list Z) : bool :=
   | _, _ => false
   end.
 
-Definition out_eqb (a b : result * list Z) : bool :=
-  result_eqb (fst a) (fst b) && zlist_eqb (snd a) (snd b).
+Definition out_eqb (a b : verdict * list Z) : bool :=
+  verdict_eqb (fst a) (fst b) && zlist_eqb (snd a) (snd b).
+
+Fixpoint outs_eqb (a b : list (verdict * list Z)) : bool :=
+  match a, b with
+  | [], [] => true
+  | x :: a', y :: b' => out_eqb x y && outs_eqb a' b'
+  | _, _ => false
+  end.
